@@ -405,6 +405,7 @@ impl<'tcx> Cx<'tcx> {
                     }
                 }
             }
+            GlobalAlloc::Static(did) => obj(vec![("opaque", s(format!("static item {} (mutable or interior-mutable global state)", self.path(did))))]),
             _ => obj(vec![("opaque", s("nonmemory alloc"))]),
         }
     }
